@@ -178,6 +178,17 @@ type Scenario struct {
 	Stack []int  `json:"stack"`
 	Steps []Step `json:"steps"`
 	T0    int64  `json:"t0,omitempty"`
+	// ExecMute: completion listeners (OnSuccess, OnFailure, OnDone) the executor does NOT register
+	ExecMute []string `json:"exec_mute,omitempty"`
+}
+
+func (sc Scenario) execMuted(name string) bool {
+	for _, m := range sc.ExecMute {
+		if m == name {
+			return true
+		}
+	}
+	return false
 }
 
 func (sc Scenario) StackString() string {
@@ -185,7 +196,11 @@ func (sc Scenario) StackString() string {
 	for i, p := range sc.Stack {
 		parts[i] = fmt.Sprintf("#%d:%s", p, sc.Pool[p])
 	}
-	return "[" + strings.Join(parts, " > ") + "]"
+	s := "[" + strings.Join(parts, " > ") + "]"
+	if len(sc.ExecMute) > 0 {
+		s += fmt.Sprintf(" executor without %v", sc.ExecMute)
+	}
+	return s
 }
 
 // KindString is the abstract shape used for distinctness hashing: kinds in stack order.
